@@ -69,7 +69,8 @@ def dino_run(cfg, rng):
 # ------------------------------------------------------------------------------- I-JEPA
 
 def ijepa_configs(tier):
-    grids = [4, 6, 8] if tier == "quick" else [4, 5, 6, 8]
+    # (rows, cols): square, portrait and landscape patch grids
+    grids = [(4, 4), (6, 6), (8, 4), (4, 8)] if tier == "quick" else [(4, 4), (5, 5), (6, 6), (8, 8), (8, 4), (4, 8), (6, 4), (5, 7)]
     menus = [((0.85, 1.0), (0.15, 0.2), (0.75, 1.5)), ((0.6, 0.8), (0.1, 0.15), (1.0, 1.0)), ((0.9, 1.0), (0.05, 0.1), (0.5, 2.0))]
     out = []
     for g in grids:
@@ -84,7 +85,7 @@ def ijepa_configs(tier):
 
 def make_ijepa(cfg):
     from kappadata.collators.kd_ijepa_mask_collator import KDIjepaMaskCollator
-    return KDIjepaMaskCollator(input_size=(cfg["g"] * 2, cfg["g"] * 2), patch_size=2, encoder_mask_scale=cfg["enc"],
+    return KDIjepaMaskCollator(input_size=(cfg["g"][0] * 2, cfg["g"][1] * 2), patch_size=2, encoder_mask_scale=cfg["enc"],
                                predictor_mask_scale=cfg["pred"], predictor_aspect_ratio=cfg["ar"], num_enc_masks=cfg["n_enc"],
                                num_pred_masks=cfg["n_pred"], min_keep=cfg["min_keep"], tries=1, dataset_mode="x", return_ctx=True)
 
@@ -110,9 +111,11 @@ def in_domain(cfg, steps=4):
 
 
 def rect_of(idx, g):
-    """(top, left, h, w) if the index set is a full rectangle of the g x g grid, else None."""
-    rows = sorted({i // g for i in idx})
-    cols = sorted({i % g for i in idx})
+    """(top, left, h, w) if the index set is a full non-empty rectangle of the (rows, cols) grid g, else None."""
+    if not idx:
+        return None
+    rows = sorted({i // g[1] for i in idx})
+    cols = sorted({i % g[1] for i in idx})
     if rows != list(range(rows[0], rows[-1] + 1)) or cols != list(range(cols[0], cols[-1] + 1)):
         return None
     if len(idx) != len(rows) * len(cols):
@@ -136,7 +139,7 @@ def ijepa_check(cfg, out, ctx, step):
         return "mask_tensor_shape", f"{None if e is None else tuple(e.shape)} / {None if pm is None else tuple(pm.shape)}", None
     for name, t in (("encoder", e), ("predictor", pm)):
         for row in t.tolist():
-            if any(i < 0 or i >= g * g for i in row):
+            if any(i < 0 or i >= g[0] * g[1] for i in row):
                 return f"{name}_index_out_of_range", f"{row}", None
             if row != sorted(row) or len(set(row)) != len(row):
                 return f"{name}_indices_not_sorted_unique", f"{row}", None
